@@ -1,6 +1,6 @@
 (* C17 — config.New: model of the reflection-driven section/param parsers for their contract
    (config/config.go New, config/decode.go, config/parser.go SectionParser / ParamParser / StringListParser,
-   config/patch.go patchMustOutbound's fallback check).  The schema is data (gen/Extracted_C17_Schema.v,
+   config/patch.go: patchBootstrapResolver, patchTcpCheckHttpMethod, patchMustOutbound's fallback check).  The schema is data (gen/Extracted_C17_Schema.v,
    regenerated from the struct tags); whether a text decodes into a typed scalar is an oracle supplied by
    the harness (common.FuzzyDecode on the real field type).  No proofs in this file. *)
 From Coq Require Import List NArith Bool.
@@ -10,7 +10,7 @@ Open Scope N_scope.
 
 Inductive build_error :=
 | EMissingSection | EUnknownSection | EUnknownKey | EKeyless | EMissingParam | EBadValue | EBadContext
-| EBadItemType | EOutOfFuel.
+| EBadItemType | EBadResolver | EOutOfFuel.
 Inductive build_result := BOk | BErr (e : build_error).
 
 Fixpoint find_field (fs : list field) (k : str) : option field :=
@@ -105,7 +105,50 @@ Section Build.
         end
     end.
 
+  (* the documented defaults: the effective value of a string-typed key of a struct section is its last
+     assignment, else the default of the schema *)
+  Fixpoint last_value (items : list gitem) (k : str) (acc : option str) : option str :=
+    match items with
+    | [] => acc
+    | GParamI p :: r => last_value r k (if str_eqb (gp_key p) k then Some (gp_val p) else acc)
+    | _ :: r => last_value r k acc
+    end.
+  Definition effective_string (sid : N) (items : list gitem) (k : str) : option str :=
+    match find_struct schema sid with
+    | Some st => match find_field (s_fields st) k with
+                 | Some f => last_value items k (f_default f)
+                 | None => None
+                 end
+    | None => None
+    end.
+
   Variable tops : list topsec.
+  Variable global_sid : N.                  (* the struct of section 'global' *)
+  Definition global_name : str := [103; 108; 111; 98; 97; 108].
+  Definition bootstrap_name : str := [98;111;111;116;115;116;114;97;112;95;114;101;115;111;108;118;101;114].
+  Definition http_method_name : str := [116;99;112;95;99;104;101;99;107;95;104;116;116;112;95;109;101;116;104;111;100].
+  Definition connect_method : str := [67; 79; 78; 78; 69; 67; 84].
+  Definition ty_addrport : N := 7.          (* oracle: netip.ParseAddrPort succeeds *)
+  Definition ty_http_method : N := 8.       (* oracle: common.IsValidHttpMethod *)
+
+  Definition is_space (c : N) : bool := (c =? 32) || ((9 <=? c) && (c <=? 13)).
+  Fixpoint drop_space (s : str) : str := match s with c :: r => if is_space c then drop_space r else s | [] => [] end.
+  Definition trim_space (s : str) : str := rev (drop_space (rev (drop_space s))).
+
+  Definition global_string (secs : list gsection) (k : str) : str :=
+    match (fix last (l : list gsection) (acc : option (list gitem)) : option (list gitem) :=
+             match l with [] => acc | x :: r => last r (if str_eqb (fst x) global_name then Some (snd x) else acc) end) secs None with
+    | Some items => match effective_string global_sid items k with Some v => v | None => [] end
+    | None => []
+    end.
+  (* patchBootstrapResolver: empty (after trimming) means the built-in resolvers; otherwise it must be ip:port *)
+  Definition bootstrap_value (secs : list gsection) : str := trim_space (global_string secs bootstrap_name).
+  Definition bootstrap_bad (secs : list gsection) : bool :=
+    match bootstrap_value secs with [] => false | v => negb (decodes ty_addrport v) end.
+  (* patchTcpCheckHttpMethod: an unknown method falls back to CONNECT *)
+  Definition effective_http_method (secs : list gsection) : str :=
+    let v := global_string secs http_method_name in
+    if decodes ty_http_method v then v else connect_method.
   Definition include_name : str := [105; 110; 99; 108; 117; 100; 101].
 
   (* nameToSection: a later section of the same name replaces an earlier one *)
@@ -153,6 +196,7 @@ Section Build.
           if existsb (fun s => negb (str_eqb (fst s) include_name) &&
                                negb (existsb (fun t => str_eqb (t_name t) (fst s)) tops)) secs
           then BErr EUnknownSection
+          else if bootstrap_bad secs then BErr EBadResolver
           else match lookup_last secs routing_name None with
                | Some items => match last_fallback_funcs items None with
                                | Some 1%nat | None => BOk
@@ -162,20 +206,4 @@ Section Build.
                end
       end.
 
-  (* the documented defaults: the effective value of a string-typed key of a struct section is its last
-     assignment, else the default of the schema *)
-  Fixpoint last_value (items : list gitem) (k : str) (acc : option str) : option str :=
-    match items with
-    | [] => acc
-    | GParamI p :: r => last_value r k (if str_eqb (gp_key p) k then Some (gp_val p) else acc)
-    | _ :: r => last_value r k acc
-    end.
-  Definition effective_string (sid : N) (items : list gitem) (k : str) : option str :=
-    match find_struct schema sid with
-    | Some st => match find_field (s_fields st) k with
-                 | Some f => last_value items k (f_default f)
-                 | None => None
-                 end
-    | None => None
-    end.
 End Build.
